@@ -8,7 +8,8 @@ from p_wire import tlc_violations
 def run(prop, tier, seed, replay=None):
     v = Verdict(prop, tier, seed)
     v.assumptions = ["'all byte strings' is covered through the record classes of MCGeometry.tla (piece lengths, lengths incl. 2^62 and 2^63-1, "
-                     "file lists, piece-table sizes, names, key order, extra keys, tracker / web-seed shapes); magnet links are not enumerated",
+                     "file lists, piece-table sizes, names, key order, extra keys, tracker / web-seed shapes); magnet links through the 326 abstract links of MCMagnet.tla "
+                     "(forms, xt sequences, tr / ws / as / dn parameters)",
                      "bencoding of the records is done by the harness's own encoder"]
     if replay:
         cases = [json.load(open(replay))["scenario"]]
@@ -22,6 +23,18 @@ def run(prop, tier, seed, replay=None):
             raise Internal("Geometry: only %d cases" % len(cases))
         for i, c in enumerate(cases):
             c["id"] = i
+    magnets = []
+    if not replay:
+        r = run_tlc("MCMagnet", "Magnet_mc.cfg", workers=1, timeout=600)
+        require_ok(r, "Magnet model checking")
+        v.add_tlc("Magnet_mc.cfg", r)
+        magnets = [json.loads(p) for p in sorted(set(r.lines("CASE")))]
+        os.unlink(r.outfile)
+        if len(magnets) < 300:
+            raise Internal("Magnet: only %d cases" % len(magnets))
+        for i, c in enumerate(magnets):
+            c["id"], c["kind"] = len(cases) + i, "magnet"
+        cases = cases + magnets
     vh = vlib.build_harness()
     wd = vlib.scratch("geo-")
     sf, rf = os.path.join(wd, "cases.ndjson"), os.path.join(wd, "res.ndjson")
@@ -47,6 +60,9 @@ def run(prop, tier, seed, replay=None):
             v.violation(vi["key"], vi["what"], c)
         for nc in o.get("nonconf") or []:
             v.warn("nonconformance: " + nc)
+        if c.get("kind") == "magnet":
+            verdicts["magnet:%s->%s" % (c["exp"]["verdict"], o["verdict"])] = verdicts.get("magnet:%s->%s" % (c["exp"]["verdict"], o["verdict"]), 0) + 1
+            continue
         k = (c["exp"]["verdict"], o["verdict"])
         verdicts["%s->%s" % k] = verdicts.get("%s->%s" % k, 0) + 1
         if o["verdict"] == "accept":
@@ -76,7 +92,7 @@ def run(prop, tier, seed, replay=None):
     v.cov["traces_validated_against_impl"] = len(cases)
     v.cov["evaluations"] = len(cases)
     v.cov["distinct_nontrivial"] = len({json.dumps(c["c"], sort_keys=True) for c in cases})
-    v.cov["rule"] = "one case per abstract metainfo record of MCGeometry.tla; accepted torrents are re-serialised and read again"
+    v.cov["rule"] = "one case per abstract metainfo record of MCGeometry.tla (accepted torrents are re-serialised and read again) and per abstract magnet link of MCMagnet.tla"
     v.cov["specification_vs_observed_verdicts"] = verdicts
     v.cov["exhaustive"] = True
     return v.finish()
